@@ -37,8 +37,19 @@ EXHAUSTIVE = {'quick': False, 'thorough': False}
 STOP_KINDS = ['abort', 'handler', 'ctrlAbort', 'ctrlShutdown', 'shutdown', 'cancel']
 PHASES = (['notStarted', 'abortedBeforeStart', 'taskCreated', 'initialising', 'running', 'cancelRequested',
            'abortedStartFinished']
-          + [f'{p}:{k}' for p in ('aborting', 'cleaningUp', 'finished') for k in STOP_KINDS])
-SOURCES = ['<absent>', 'src', '_ext_x', '', '_ext', '_ext_', '_ext__', 'ext_', '_Ext_a', 5, None, ('t',)]
+          + [f'{p}:{k}' for p in ('aborting', 'stopping1', 'cleaningUp', 'finished') for k in STOP_KINDS])
+# 'aborting:K'  = right after the stop K was requested, in the same step of the caller;
+# 'stopping1:K' = one event-loop iteration later (a task created for shutdown() has made its first step, a
+#                 requested cancellation has been delivered)
+SOURCES = ['<absent>', 'src', '_ext_x', '', '_ext', '_ext_', '_ext__', 'ext_', '_Ext_a', 'pump_ext_1', ' _ext_d',
+           '__ext_', 5, None, ('t',)]
+FRAGMENTS = ['_ext_', '_ext', 'ext_', '_', 'a', ' ', 'E', 'x_', '_EXT_', 'ext']
+
+
+def rand_source(rng):
+    """source strings assembled from fragments of the prefix: near misses at every position"""
+    return ''.join(rng.choice(FRAGMENTS) for _ in range(rng.randint(1, 4)))
+
 VALUES = ['<absent>', 7, None, 'v', (1, 2)]
 CTOR_SOURCES = ['<default>', 'abc', '_ext_abc', '', '_ext', 5, None]
 ETYPES = ['ev', 'ev', 'ev', '', 5]
@@ -65,6 +76,8 @@ def recipe(phase):
         return run + ['rawCancel']
     if base == 'aborting':
         return run + [kind if kind != 'cancel' else 'cancel']
+    if base == 'stopping1':
+        return run + [kind, 'yield1']
     if base == 'cleaningUp':
         return run + [kind, 'settle']
     if base == 'finished':
@@ -99,8 +112,8 @@ def scenarios(rng, tier):
             extra = {k: rng.choice([0, 'x', None, (1,)]) for k in rng.sample(['a', 'b', 'value2', 'sourcex', 'src'],
                                                                              rng.randint(0, 3))}
             ops.append(send(dest=rng.choice(DESTS[:2] * 4 + DESTS), etype=rng.choice(ETYPES),
-                            csrc=rng.choice(CTOR_SOURCES), value=rng.choice(VALUES), source=rng.choice(SOURCES),
-                            extra=extra))
+                            csrc=rng.choice(CTOR_SOURCES + [rand_source(rng)] * 4), value=rng.choice(VALUES),
+                            source=rng.choice(SOURCES + [rand_source(rng)] * 8), extra=extra))
         yield {'kind': 'send', 'phase': phase, 'ops': ops}
     # names
     user = ['a', 'x_1', '_x', '__', '', '_ext_', '_ext_me', 'ext_', 'e', '_not_a', '_ctrl2', 'Ext', ' ', '1']
@@ -251,6 +264,9 @@ def run_send(scn):
             elif step == 'shutdown':
                 asyncio.create_task(circuit.shutdown())
                 life_line('ext life shutdownTask')
+            elif step == 'yield1':
+                await asyncio.sleep(0)
+                life_line('ext life tick')
             elif step == 'settle':
                 await vtime.settle(loop)
                 life_line('ext life-settle')
@@ -435,6 +451,8 @@ def run_impl(scn):
 
 # ---------------------------------------------------------------- oracle
 
+# the circuit is running in these phases: a task created for shutdown() has not run yet, a requested
+# cancellation has not been delivered yet
 READY_PHASES = {'initialising', 'running', 'cancelRequested', 'aborting:shutdown', 'aborting:cancel'}
 
 
